@@ -5,15 +5,13 @@
  * pairs, native), K3 (init loop memory safety). */
 #include "vh.h"
 
+/* straight-line (no loop): cheaper for symbolic execution when the operands are concrete */
+#define GF16_STEP r ^= a & (0u - (b & 1u)); b >>= 1; a <<= 1; a ^= 0x1100bu & (0u - ((a >> 16) & 1u));
 static inline unsigned gf16_mul_u(unsigned a, unsigned b)
 {
     unsigned r = 0;
-    for (int i = 0; i < 16; i++) {
-        r ^= a & (0u - (b & 1u));
-        b >>= 1;
-        a <<= 1;
-        a ^= 0x1100bu & (0u - ((a >> 16) & 1u));
-    }
+    GF16_STEP GF16_STEP GF16_STEP GF16_STEP GF16_STEP GF16_STEP GF16_STEP GF16_STEP
+    GF16_STEP GF16_STEP GF16_STEP GF16_STEP GF16_STEP GF16_STEP GF16_STEP GF16_STEP
     return r;
 }
 
